@@ -4,20 +4,57 @@
 (* the in-package harness from the real arbitratorImpl on a fake API       *)
 (* server (zz_verif_c16arb_test.go); every event carries  obs , the        *)
 (* projection read back after it:                                          *)
-(*   obs.jobs[j] = [pod, phase, passed, inMap, waiting]   obs.ready[pod]   *)
-(* The specification state simply FOLLOWS the observations; what is        *)
-(* asserted is only what the property states:                              *)
+(*   obs.jobs[j] = [pod, phase, passed, waiting]        obs.ready[pod]     *)
+(* What decides a verdict on the code under test is only what the property *)
+(* states:                                                                 *)
 (*   round   RoundOK(state before the round, state observed after it)      *)
 (*   filter  DupOK: Arbitrator.Filter said no for a pod with a live job    *)
-(* The other events (jobs created / started / finished / deleted, pods     *)
-(* changing readiness) are the environment: nothing is demanded of them.   *)
+(* Around them, so that these predicates are evaluated on states that mean *)
+(* what the model takes them to mean:                                      *)
+(*   - the environment events (jobs created / started / finished /         *)
+(*     deleted by the harness through the API and the real event handler,  *)
+(*     pods changing readiness) must leave exactly the state the           *)
+(*     environment actions of Arbitration.tla describe;                    *)
+(*   - a round only touches the jobs that were waiting (RoundFrame).       *)
+(* The outcome of a round itself is NOT compared with the transcription    *)
+(* (any outcome that satisfies RoundOK is accepted); VERIF_DIAG, by hand   *)
+(* only, adds that comparison.                                             *)
 (***************************************************************************)
 EXTENDS Arbitration, TraceCommon
 
 JobsOf(o) == [j \in DOMAIN o.jobs |-> [pod |-> o.jobs[j].pod, phase |-> o.jobs[j].phase, passed |-> o.jobs[j].passed]]
 WaitOf(o) == {j \in DOMAIN o.jobs : o.jobs[j].waiting}
-Follow(o) == /\ jobs' = JobsOf(o) /\ waiting' = WaitOf(o) /\ ready' = o.ready
-             /\ UNCHANGED <<pods, wls, lim>>
+SameJobs(A, B) == DOMAIN A = DOMAIN B /\ \A j \in DOMAIN A : A[j] = B[j]
+
+\* the observation is the state the environment action leads to
+ObsIsNext == Expect(/\ SameJobs(JobsOf(Ev.obs), jobs')
+                    /\ WaitOf(Ev.obs) = waiting'
+                    /\ FEq(Ev.obs.ready, ready'),
+                    [jobs |-> jobs', waiting |-> waiting', ready |-> ready'])
+
+TCreate == IsEvent("jobCreate") /\ JobCreate(Ev.job, Ev.pod, Ev.phase) /\ ObsIsNext
+TStart  == IsEvent("jobStart")  /\ JobStart(Ev.job) /\ ObsIsNext
+TFinish == IsEvent("jobFinish") /\ JobFinish(Ev.job, Ev.phase) /\ ObsIsNext
+TDelete == IsEvent("jobDelete") /\ JobDelete(Ev.job) /\ ObsIsNext
+TReady  == IsEvent("podReady")  /\ PodSetReady(Ev.pod, Ev.val) /\ ObsIsNext
+
+\* Arbitrator.Filter only answers; DupOK is all the property asks of the answer
+TFilter == /\ IsEvent("filter")
+           /\ Expect(DupOK(jobs, Ev.pod, Ev.result), [result |-> ~HasLive(jobs, Ev.pod) /\ Ev.result])
+           /\ UNCHANGED vars
+           /\ ObsIsNext
+
+\* a round leaves alone everything but the jobs that were waiting; those keep their pod, stay passed once
+\* passed, and change phase at most to Failed; nothing joins the waiting collection
+RoundFrame(J0, W0, R0, J1, W1, R1) ==
+    /\ DOMAIN J1 = DOMAIN J0
+    /\ FEq(R1, R0)
+    /\ W1 \subseteq W0
+    /\ \A j \in DOMAIN J0 :
+          IF j \notin W0 THEN J1[j] = J0[j]
+          ELSE /\ J1[j].pod = J0[j].pod
+               /\ (J0[j].passed => J1[j].passed)
+               /\ (J1[j].phase = J0[j].phase \/ J1[j].phase = "Failed")
 
 \* By hand only (VERIF_DIAG set; never part of a verdict): does the design-level transcription of the round
 \* (Arbitration!RunRound, for SOME processing order) reproduce what the real code did?  Keeps the model that
@@ -27,24 +64,21 @@ ModelAgrees(J1, W1) ==
     IF Cardinality(waiting) > 6 THEN TRUE
     ELSE {order \in (IF waiting = {} THEN {<<>>} ELSE SetToSeqs(waiting)) :
              LET S == RunRound([J |-> jobs, W |-> waiting], order)
-             IN  S.W = W1 /\ DOMAIN S.J = DOMAIN J1 /\ \A j \in DOMAIN J1 : S.J[j] = J1[j]} # {}
+             IN  S.W = W1 /\ SameJobs(S.J, J1)} # {}
 
 TRound == /\ IsEvent("round")
           /\ LET J1 == JobsOf(Ev.obs)
                  W1 == WaitOf(Ev.obs)
                  R1 == Ev.obs.ready
-             IN  Expect(RoundOK(jobs, waiting, ready, J1, W1, R1),
-                        [brokenLimits |-> BrokenLimits(jobs, ready, J1, R1),
+             IN  Expect(/\ RoundFrame(jobs, waiting, ready, J1, W1, R1)
+                        /\ RoundOK(jobs, waiting, ready, J1, W1, R1),
+                        [frameKept |-> RoundFrame(jobs, waiting, ready, J1, W1, R1),
+                         brokenLimits |-> BrokenLimits(jobs, ready, J1, R1),
                          failedOrDroppedAlthoughOnlyHeadroomWasMissing |-> BrokenRetry(jobs, waiting, J1, W1)])
           /\ (Diag => IF ModelAgrees(JobsOf(Ev.obs), WaitOf(Ev.obs)) THEN TRUE
                        ELSE PrintT(<<"DIAG round differs from the transcription", seg, l>>) /\ FALSE)
-          /\ Follow(Ev.obs)
-TFilter == /\ IsEvent("filter")
-           /\ Expect(DupOK(jobs, Ev.pod, Ev.result), [result |-> ~HasLive(jobs, Ev.pod) /\ Ev.result])
-           /\ Follow(Ev.obs)
-TEnv == /\ \/ IsEvent("jobCreate") \/ IsEvent("jobStart") \/ IsEvent("jobFinish")
-           \/ IsEvent("jobDelete") \/ IsEvent("podReady")
-        /\ Follow(Ev.obs)
+          /\ jobs' = JobsOf(Ev.obs) /\ waiting' = WaitOf(Ev.obs) /\ ready' = Ev.obs.ready
+          /\ UNCHANGED <<pods, wls, lim>>
 
 TraceInit == \E i \in Starts :
                 /\ TraceStart(i)
@@ -52,6 +86,7 @@ TraceInit == \E i \in Starts :
                 /\ lim = [Trace[i].lim EXCEPT !.gates = ToSet(Trace[i].lim.gates)]
                 /\ ready = Trace[i].ready0
                 /\ jobs = <<>> /\ waiting = {}
-TraceNext == TRound \/ TFilter \/ TEnv \/ (SegDone /\ UNCHANGED vars)
+TraceNext == \/ TRound \/ TFilter \/ TCreate \/ TStart \/ TFinish \/ TDelete \/ TReady
+             \/ (SegDone /\ UNCHANGED vars)
 TraceSpec == TraceInit /\ [][TraceNext]_<<vars, tvars>>
 =============================================================================
